@@ -31,6 +31,18 @@ CHECKS = {
          "allocator; a history where it is not realised is not counted.",
          "TLA+ semantic laws + heap/token state machine, TLC model checking, vector replay and trace validation against kernel/term.py",
          "6/C03"),
+ "C12": ("model_checking",
+         "TLC model-checks the loader of logic/basic.py written in PlusCal (spec/C12_Loader.tla: global theory, cache, timestamps, "
+         "sys.modules, module-import side effects, injected parse failures), exhaustively over all histories of <= 3 operations on a "
+         "4-theory chain and of 2 operations on the REAL import graph with constants generated from the repository (library imports, "
+         "lazy-import table, traced module bodies); invariant: every load returns exactly Expected. Histories (counterexamples of the "
+         "as-coded variants, samples, limits, injected failures, file edits on a scratch library, a cyclic library) are executed in "
+         "fresh subprocesses of the real code and every load event is judged by TLC (spec/C12_LoaderTrace.tla): success, error on "
+         "missing limit / cycle, installed names = transitive imports + own items before the limit, full projection = canonical fresh process.",
+         "Trusted: TLC/SANY/pcal, the projection of theory.thy (harness/drivers/c12.py), per-item extension names taken from the canonical "
+         "process. Histories are sampled (quick ~20, thorough ~150); the model-level exploration is exhaustive for its bounds.",
+         "PlusCal/TLA+ model of the loader + TLC; model histories replayed in fresh processes; trace validation of projected theory states",
+         "6/C12"),
 }
 
 NOT_YET = {}
